@@ -543,6 +543,10 @@ class EvalFunc:
 
                     return pyscript_service_handler
 
+                if getattr(trig_ctx, "stopped", False):
+                    # defined by code that is still running after its file was unloaded: like
+                    # its triggers, the services of such a function are never activated
+                    continue
                 for srv_name in dec_args if dec_args else [f"{DOMAIN}.{func_name}"]:
                     if type(srv_name) is not str or srv_name.count(".") != 1:
                         raise ValueError(f"{exc_mesg}: @service argument must be a string with one period")
